@@ -248,6 +248,27 @@ mod proofs {
     }
     from_inst! { c15_from_0 = <0>; c15_from_1 = <1>; c15_from_2 = <2>; c15_from_3 = <3>; c15_from_4 = <4>; }
 
+    // lengths just past the usual block sizes of a chunked / vectorised summation (seed C15-c: chunks_exact(16) without
+    // the remainder); values are small so that no partial sum overflows and the cost stays linear
+    macro_rules! from_long {
+        ($($name:ident = <$l:literal>, $u:literal;)*) => {$(
+            #[kani::proof]
+            #[kani::unwind($u)]
+            fn $name() {
+                let small: [i16; $l] = kani::any();
+                let mut v = [0i64; $l];
+                let mut i = 0;
+                while i < $l {
+                    v[i] = small[i] as i64;
+                    i += 1;
+                }
+                check_from::<$l>(v);
+                crate::witness!(small[$l - 1] != 0, "WITNESS last result non-zero");
+            }
+        )*};
+    }
+    from_long! { c15_from_9 = <9>, 11; c15_from_17 = <17>, 19; c15_from_33 = <33>, 35; }
+
     #[kani::proof]
     fn c15_individual_generator() {
         let mut rng = SymRng::new();
